@@ -103,6 +103,9 @@ type entry struct {
 	light bool   // member of the reduced registry (quick-tier -race suite)
 	heavy bool   // several ms per call: not used in 64-goroutine mixes
 	note  string // e.g. "verdict only"
+	// ret, when set, performs the call and also hands out pointers to every reference-bearing value the
+	// library returned (pointers, slices, maps, big.Ints); call is then derived from it
+	ret func() ([]byte, []interface{})
 	// filled by the group
 	first []byte // result of the very first call in this process (sequential)
 	idx   int
@@ -115,6 +118,7 @@ type group struct {
 	entries []*entry
 	// purity violations observed while recording the first result of each entry
 	firstCallImpure []string
+	notes           []string // exemptions / observations of the build (emitted as rep.Note by the tests)
 }
 
 var (
@@ -152,6 +156,71 @@ func (b *builder) add(name string, call func() []byte, args ...arg) *entry {
 	return e
 }
 
+// addRet registers an entry point whose result holds references: after every call the harness
+// overwrites the returned values in place (scribble) — they belong to the caller — and later calls
+// must still return the first result.
+func (b *builder) note(text string) { b.g.notes = append(b.g.notes, text) }
+
+func (b *builder) addRet(name string, ret func() ([]byte, []interface{}), args ...arg) *entry {
+	e := b.add(name, func() []byte { s, _ := ret(); return s }, args...)
+	e.ret = ret
+	return e
+}
+
+// run performs one call of e; for entries that return references the returned values are scribbled over.
+func (e *entry) run() []byte {
+	if e.ret == nil {
+		return e.call()
+	}
+	s, vals := e.ret()
+	scribble(vals...)
+	return s
+}
+
+// afterScribble re-runs a reference-returning entry right after its result was overwritten: "" if
+// it still returns the first result.
+func afterScribble(e *entry) string {
+	if e.ret == nil {
+		return ""
+	}
+	again, pan := func() (r []byte, p string) {
+		defer func() {
+			if x := recover(); x != nil {
+				p = fmt.Sprint(x)
+			}
+		}()
+		return e.call(), ""
+	}()
+	if pan != "" {
+		return fmt.Sprintf("SCRIBBLE_RETURNED: after the value returned by %s was overwritten in place, the next call panics: %s", e.name, pan)
+	}
+	if !bytes.Equal(again, e.first) {
+		return fmt.Sprintf("SCRIBBLE_RETURNED: after the value returned by %s was overwritten in place (it belongs to the caller), the next call "+
+			"returns %s instead of %s: the returned value aliases state the library keeps", e.name, short(again), short(e.first))
+	}
+	return ""
+}
+
+func scribbleHint(e *entry) string {
+	if e.ret == nil {
+		return ""
+	}
+	return " (SCRIBBLE_RETURNED: every caller overwrites the values returned to it; they must not alias state the library keeps)"
+}
+
+func retClass(es ...*entry) []string {
+	for _, e := range es {
+		if e.ret != nil {
+			return []string{"scribble_returned"}
+		}
+	}
+	return nil
+}
+
+// keyDefaultParams: known-finding key under which poseidon2.GetDefaultParameters handing out the process-wide
+// singleton would be excluded from the scribble oracle (see the report; not listed unless the lead decides so).
+const keyDefaultParams = "poseidon2-getdefaultparameters-returns-shared-singleton"
+
 func sh(name string, obj interface{}) arg { return arg{name, obj} }
 
 // get builds the group (once) and records the first, sequential result of every entry.
@@ -164,9 +233,19 @@ func (g *group) get() []*entry {
 			// the very first call of an entry in this process is where lazily built caches get written into
 			// shared arguments: it runs under the purity oracle too
 			before := snapArgs(e)
-			e.first = e.call()
+			e.first = e.run()
 			if ch := before.changed(); len(ch) > 0 {
-				g.firstCallImpure = append(g.firstCallImpure, fmt.Sprintf("%s modified its shared argument(s) %v on its first call", e.name, ch))
+				what := "modified its shared argument(s)"
+				if e.ret != nil {
+					what = "returned a value that aliases its shared argument(s) (overwriting the result changed)"
+				}
+				g.firstCallImpure = append(g.firstCallImpure, fmt.Sprintf("%s %s %v on its first call", e.name, what, ch))
+			}
+			if e.ret != nil {
+				if again := e.call(); !bytes.Equal(again, e.first) {
+					g.firstCallImpure = append(g.firstCallImpure, fmt.Sprintf("SCRIBBLE_RETURNED: after the value returned by the first call of %s "+
+						"was overwritten in place, the next call returns %s instead of %s: the result aliases state the library keeps", e.name, short(again), short(e.first)))
+				}
 			}
 		}
 	})
@@ -246,7 +325,7 @@ func safeCall(e *entry) (res []byte, panicked string) {
 			panicked = fmt.Sprintf("%v\n%s", r, buf)
 		}
 	}()
-	return e.call(), ""
+	return e.run(), ""
 }
 
 type snapSet struct {
@@ -292,7 +371,13 @@ func TestC18_Sequential(t *testing.T) {
 		test := "C18_Sequential/" + g.name
 		rep.Note(test, fmt.Sprintf("%d entry points in group %s", len(es), g.name))
 		if len(g.firstCallImpure) > 0 {
-			t.Fatalf("PURITY: %s", strings.Join(g.firstCallImpure, "; "))
+			for _, m := range g.firstCallImpure {
+				t.Errorf("PURITY: %s", m)
+			}
+			t.FailNow()
+		}
+		for _, n := range g.notes {
+			rep.Note(test, n)
 		}
 		sweepSequential(t, test, es)
 		rapid.Check(t, func(rt *rapid.T) { propSequential(rt, test, es) })
@@ -314,7 +399,10 @@ func sweepSequential(t *testing.T, test string, es []*entry) {
 				t.Fatalf("sweep: %s panicked: %s", c.name, pan)
 			}
 			if ch := before.changed(); len(ch) > 0 {
-				t.Fatalf("PURITY: sweep: %s modified its shared argument(s) %v", c.name, ch)
+				t.Fatalf("PURITY: sweep: %s modified its shared argument(s) %v (or returned a value aliasing them)", c.name, ch)
+			}
+			if msg := afterScribble(c); msg != "" {
+				t.Fatalf("%s", msg)
 			}
 			if !bytes.Equal(res, c.first) {
 				t.Fatalf("REPEATABILITY: sweep: call %d of %s (interleaved with %s) returned %s, its first call in this process returned %s",
@@ -324,7 +412,7 @@ func sweepSequential(t *testing.T, test string, es []*entry) {
 		if ch := all.changed(); len(ch) > 0 {
 			t.Fatalf("PURITY: sweep: shared object(s) %v changed while interleaving %s and %s", ch, pair[0].name, pair[1].name)
 		}
-		rep.Case(test, "sweep:"+pair[0].name+";"+pair[1].name, true, "sweep", "entry:"+e.name, "k=3")
+		rep.Case(test, "sweep:"+pair[0].name+";"+pair[1].name, true, append([]string{"sweep", "entry:" + e.name, "k=3"}, retClass(pair...)...)...)
 	}
 }
 
@@ -367,7 +455,10 @@ func propSequential(rt *rapid.T, test string, es []*entry) {
 			rt.Fatalf("step %d: %s panicked: %s", n, e.name, pan)
 		}
 		if ch := before.changed(); len(ch) > 0 {
-			rt.Fatalf("PURITY: step %d: %s modified its shared argument(s) %v", n, e.name, ch)
+			rt.Fatalf("PURITY: step %d: %s modified its shared argument(s) %v (or returned a value aliasing them)", n, e.name, ch)
+		}
+		if msg := afterScribble(e); msg != "" {
+			rt.Fatalf("step %d: %s", n, msg)
 		}
 		if !bytes.Equal(res, e.first) {
 			rt.Fatalf("REPEATABILITY: step %d: %s returned %s, its first call in this process returned %s (history %s)",
@@ -377,7 +468,7 @@ func propSequential(rt *rapid.T, test string, es []*entry) {
 	if ch := all.changed(); len(ch) > 0 {
 		rt.Fatalf("PURITY: shared object(s) %v changed during the history %s", ch, key.String())
 	}
-	rep.Case(test, key.String(), true, uniq(classes)...)
+	rep.Case(test, key.String(), true, uniq(append(classes, retClass(chosen...)...))...)
 }
 
 // pickDistinct draws m distinct indices below n (partial Fisher-Yates over rapid draws).
@@ -424,6 +515,12 @@ func TestC18_Concurrent(t *testing.T) {
 		if reduced() {
 			rep.Note(test, fmt.Sprintf("reduced registry (%d of %d entry points of %s) for the quick-tier -race build; "+
 				"the full registry runs under -race in the thorough tier", len(es), len(g.get()), g.name))
+		}
+		if len(g.firstCallImpure) > 0 { // found while building the registry: everything after it is a consequence
+			for _, m := range g.firstCallImpure {
+				t.Errorf("PURITY: %s", m)
+			}
+			t.FailNow()
 		}
 		defer runtime.GOMAXPROCS(runtime.GOMAXPROCS(0))
 		sweepConcurrent(t, test, es)
@@ -482,15 +579,15 @@ func sweepConcurrent(t *testing.T, test string, es []*entry) {
 			}
 			for _, r := range results[j] {
 				if !bytes.Equal(r, e.first) {
-					t.Fatalf("CONCURRENCY: sweep: 4 goroutines (GOMAXPROCS=%d) all running %s: one obtained %s, alone it returns %s",
-						p, e.name, short(r), short(e.first))
+					t.Fatalf("CONCURRENCY: sweep: 4 goroutines (GOMAXPROCS=%d) all running %s: one obtained %s, alone it returns %s%s",
+						p, e.name, short(r), short(e.first), scribbleHint(e))
 				}
 			}
 		}
 		if ch := snap.changed(); len(ch) > 0 {
 			t.Fatalf("PURITY: sweep: shared object(s) %v changed while 4 goroutines ran %s", ch, e.name)
 		}
-		rep.Case(test, "sweep:"+e.name, true, "sweep", "entry:"+e.name, "g=4(sweep)", fmt.Sprintf("P=%d", p), "mode:same")
+		rep.Case(test, "sweep:"+e.name, true, append([]string{"sweep", "entry:" + e.name, "g=4(sweep)", fmt.Sprintf("P=%d", p), "mode:same"}, retClass(e)...)...)
 	}
 }
 
@@ -552,8 +649,8 @@ func propConcurrent(rt *rapid.T, test string, es []*entry) {
 		}
 		for j, s := range plans[i] {
 			if !bytes.Equal(results[i][j], s.e.first) {
-				rt.Fatalf("CONCURRENCY: goroutine %d of %d (GOMAXPROCS=%d, mode %s): %s returned %s, alone it returns %s",
-					i, g, p, mode, s.e.name, short(results[i][j]), short(s.e.first))
+				rt.Fatalf("CONCURRENCY: goroutine %d of %d (GOMAXPROCS=%d, mode %s): %s returned %s, alone it returns %s%s",
+					i, g, p, mode, s.e.name, short(results[i][j]), short(s.e.first), scribbleHint(s.e))
 			}
 		}
 	}
@@ -564,6 +661,7 @@ func propConcurrent(rt *rapid.T, test string, es []*entry) {
 	for _, e := range ul {
 		classes = append(classes, "entry:"+e.name)
 	}
+	classes = append(classes, retClass(ul...)...)
 	rep.Case(test, key.String(), true, classes...)
 }
 
